@@ -35,6 +35,8 @@ Misc(a, b) == <<
   AttrBr(NameE("arr"), a), AttrBr(NameE("h"), a), AttrDot(NameE("h"), "k"), AttrDot(NameE("arr"), "1"),
   AttrBr(ArrE(<<a, b>>), IntE(1)), AttrDot(HashE(<< <<NameE("k"), a>>, <<StrE("j"), b>> >>), "j"),
   AttrBr(HashE(<< <<a, b>> >>), a),
+  (* a key in parentheses is an expression even when it is a bare name: {(x): b} has the VALUE of x as its key *)
+  AttrBr(HashE(<< <<Grp(a), b>> >>), a), Id(HashE(<< <<Grp(a), IntE(1)>> >>)), AttrDot(HashE(<< <<Grp(NameE("s")), a>>, <<NameE("s"), b>> >>), "ab"),
   Id(a), CallE("id", <<Id(a), Id(b)>>), CallE("nul", <<a, b>>),
   Pipe(a, "rec", <<>>), Pipe(a, "rec", <<b>>), Pipe(Id(a), "rec", <<Id(b), Id(a)>>), Pipe(a, "up", <<>>), Pipe(a, "wrap", <<b>>),
   Pipe(Pipe(a, "up", <<>>), "wrap", <<StrE("*")>>),
